@@ -56,7 +56,7 @@ type Profile struct {
 	Disabled map[string]bool
 }
 
-var allFeatures = []string{"closure", "loop", "goto", "pcall", "xpcall", "error", "rtfault", "coroutine", "wrap", "meta", "sort", "gsub", "fenv", "hostcall", "hostpcall", "clobber", "multiassign", "tailcall", "shadow", "factory", "level2", "nested_yield", "tail_yield", "fieldcall", "selfstatus"}
+var allFeatures = []string{"closure", "loop", "goto", "pcall", "xpcall", "error", "rtfault", "coroutine", "wrap", "meta", "sort", "gsub", "fenv", "hostcall", "hostpcall", "clobber", "multiassign", "tailcall", "shadow", "factory", "level2", "nested_yield", "tail_yield", "fieldcall", "selfstatus", "yield_boundary"}
 
 // ProfileFor returns the generator profile of an engine.
 func ProfileFor(name string) *Profile {
@@ -64,7 +64,7 @@ func ProfileFor(name string) *Profile {
 	for _, f := range allFeatures {
 		p.Allow[f] = true
 	}
-	p.Allow["tail_yield"], p.Allow["nested_yield"], p.Allow["selfstatus"] = false, false, false
+	p.Allow["tail_yield"], p.Allow["nested_yield"], p.Allow["selfstatus"], p.Allow["yield_boundary"] = false, false, false, false
 	w := p.Weights
 	w["decl"], w["assign"], w["emit"], w["if"], w["loop"], w["do"], w["func"], w["call"] = 6, 6, 6, 3, 4, 1, 5, 5
 	w["pcall"], w["xpcall"], w["error"], w["rtfault"], w["co"], w["meta"], w["sort"], w["gsub"], w["fenv"], w["host"], w["clobber"], w["goto"] = 4, 3, 2, 2, 4, 2, 1, 1, 1, 2, 2, 2
@@ -74,12 +74,13 @@ func ProfileFor(name string) *Profile {
 		w["meta"], w["sort"], w["gsub"] = 1, 1, 1
 	case "containment":
 		w["pcall"], w["xpcall"], w["error"], w["rtfault"], w["host"] = 8, 6, 4, 3, 4
+		p.Allow["yield_boundary"] = true
 	case "coroutine":
 		w["co"] = 14
 		p.YieldFix = -1
-		p.Allow["tail_yield"], p.Allow["nested_yield"], p.Allow["selfstatus"] = true, true, true
+		p.Allow["tail_yield"], p.Allow["nested_yield"], p.Allow["selfstatus"], p.Allow["yield_boundary"] = true, true, true, true
 	case "cobodies":
-		p.Allow["tail_yield"], p.Allow["nested_yield"], p.Allow["selfstatus"] = true, true, true
+		p.Allow["tail_yield"], p.Allow["nested_yield"], p.Allow["selfstatus"], p.Allow["yield_boundary"] = true, true, true, true
 		w["co"] = 6
 		p.YieldFix = -1
 		p.MaxStmts = 12
